@@ -22,7 +22,7 @@ META = {
                      "max/min/sqrt/** semantics of the standard library"],
     "assumptions": ["values are real numbers; rounding is out of scope here (see C20)"],
 }
-META["explanation"] += ' Also COPY, partial / external writes of tracker state, derived constants next to a public parameter, iterables walked twice, process-wide NumPy error mode; the parts of the Welford state are identified by use.'
+META["explanation"] += ' Also COPY, partial / external writes of tracker state, derived constants next to a public parameter, iterables walked twice, process-wide NumPy error mode; the parts of the Welford state are identified by use; INPUT: no state field is the input object itself.'
 MIN_INSTANCES = {"INDUCT": 12, "COUNT": 2, "RANGE": 1, "COPY": 2}
 
 P = lambda s: ("param", s)
@@ -152,8 +152,32 @@ def _check_own(run):
     run.need(W is not None and E is not None, "anchor classes WelfordTracker / ExponentialSmoothingTracker vanished")
     _welford(run, prog, W)
     _smoothing(run, prog, E)
+    _no_input_kept(run, prog, (W, E))
     from .common import ctor_wiring
     ctor_wiring(run, prog, E, "CTOR")               # the smoothing parameter as configured
+
+
+def _no_input_kept(run, prog, classes):
+    """INPUT: no part of the state is the caller's value itself.  The recurrences are written for floats: every stored
+    quantity must be the result of arithmetic on the input (which converts NumPy fixed-width integers to floats by the
+    division / the multiplication with a float), never the input object -- a state that *is* the first np.uint8 makes
+    the next `value - state` wrap around, and an array handed in and kept is changed by the later in-place updates."""
+    for K in classes:
+        upd = prog.summarise(K, "update")
+        v = _param(prog, K, "update")
+        bad = []
+        for f, t in upd.fields.items():
+            leaves = [t]
+            while any(x[0] == "gate" for x in leaves):
+                leaves = [y for x in leaves for y in ((x[2], x[3]) if x[0] == "gate" else (x,))]
+            if v in leaves:
+                bad.append(f)
+        run.check(not bad, "INPUT", f"{K.name}.state", f"{upd.path}:{upd.fn.lineno}", f"{K.name}.update",
+                  f"state fields set to the input itself: {bad}",
+                  f"{K.name}.update stores the input object itself in {', '.join('self.' + b for b in bad)} on some path: the "
+                  f"tracked state then has the input's type (a NumPy fixed-width integer wraps around in the next "
+                  f"difference, an array is aliased and later changed in place) instead of being a float computed from it",
+                  "every state field is an arithmetic result, never the input object")
 
 
 # ------------------------------------------------------------------------------------------------
